@@ -136,4 +136,51 @@ theorem int_checked_div_decimal_eq (prof : Profile) (tm : Mode) (i : Int) (d : D
           refine bind_congr _ (fun o => ?_)
           cases o <;> rfl
 
+theorem decimal_div_rounded_int_eq (prof : Profile) (tm : Mode) (d : Dec) (i : Int) (n : Nat) (hd : fitsI128 d.coeff = true)
+    (hp : d.nfrac ≤ 38) :
+    Gen.K.decimal_div_rounded_int prof tm d i n = divRoundedDecInt prof tm d i n := by
+  unfold Gen.K.decimal_div_rounded_int divRoundedDecInt
+  by_cases h : n > Gen.MAX_N_FRAC_DIGITS
+  · simp only [h, decide_true, if_true]
+  · simp only [h, decide_false, Bool.false_eq_true, if_false]
+    by_cases hz : i = 0
+    · simp only [hz, decide_true, if_true]
+    · simp only [hz, decide_false, Bool.false_eq_true, if_false]
+      by_cases h0 : eqZero d = true
+      · simp only [h0, if_true, pure_eq']
+      · simp only [h0, Bool.false_eq_true, if_false, checked_div_rounded_eq prof tm d.coeff d.nfrac i 0 n hd hp]
+        cases checkedDivRounded prof tm d.coeff d.nfrac i 0 n with
+        | panic k => simp only [bind_panic']
+        | ok o => cases o <;> simp only [bind_ok', pure_eq']
+
+theorem int_div_rounded_decimal_eq (prof : Profile) (tm : Mode) (i : Int) (d : Dec) (n : Nat) (hi : fitsI128 i = true) :
+    Gen.K.int_div_rounded_decimal prof tm i d n = divRoundedIntDec prof tm i d n := by
+  unfold Gen.K.int_div_rounded_decimal divRoundedIntDec
+  by_cases h : n > Gen.MAX_N_FRAC_DIGITS
+  · simp only [h, decide_true, if_true]
+  · simp only [h, decide_false, Bool.false_eq_true, if_false]
+    by_cases hz : eqZero d = true
+    · simp only [hz, if_true]
+    · simp only [hz, Bool.false_eq_true, if_false]
+      by_cases h0 : i = 0
+      · simp only [h0, decide_true, if_true, pure_eq']
+      · simp only [h0, decide_false, Bool.false_eq_true, if_false, checked_div_rounded_eq prof tm i 0 d.coeff d.nfrac n hi (by decide)]
+        cases checkedDivRounded prof tm i 0 d.coeff d.nfrac n with
+        | panic k => simp only [bind_panic']
+        | ok o => cases o <;> simp only [bind_ok', pure_eq']
+
+/-- `int.div_rounded(int, n)` — the translated body has no `n_frac_digits` guard either (open finding D8) -/
+theorem int_div_rounded_int_eq (prof : Profile) (tm : Mode) (i j : Int) (n : Nat) (hi : fitsI128 i = true) :
+    Gen.K.int_div_rounded_int prof tm i j n = divRoundedIntInt prof tm i j n := by
+  unfold Gen.K.int_div_rounded_int divRoundedIntInt
+  by_cases hz : j = 0
+  · simp only [hz, decide_true, if_true]
+  · simp only [hz, decide_false, Bool.false_eq_true, if_false]
+    by_cases h0 : i = 0
+    · simp only [h0, decide_true, if_true, pure_eq']
+    · simp only [h0, decide_false, Bool.false_eq_true, if_false, checked_div_rounded_eq prof tm i 0 j 0 n hi (by decide)]
+      cases checkedDivRounded prof tm i 0 j 0 n with
+      | panic k => simp only [bind_panic']
+      | ok o => cases o <;> simp only [bind_ok', pure_eq']
+
 end Fpdec.Kernels
